@@ -1,7 +1,756 @@
-//! Virtual sign / bus generators: C12–C14.
+//! Virtual sign / bus generators and oracles: C12–C14.
+#![allow(dead_code)]
+
+use std::collections::{HashMap, HashSet, VecDeque};
+
+use flipdot_core::{Address, ChunkCount, Data, Message, Offset, Operation, Page, PageFlipStyle, PageId, SignBus, SignType, State};
+use flipdot_testing::{VirtualSign, VirtualSignBus};
+
+use crate::implside::{hash_pages, show_reply, show_sign};
 use crate::util::*;
 use crate::Out;
 
-pub fn c12(_thorough: bool, _rng: &mut Rng, _out: &mut Out) {}
-pub fn c13(_thorough: bool, _rng: &mut Rng, _out: &mut Out) {}
-pub fn c14(_thorough: bool, _rng: &mut Rng, _out: &mut Out) {}
+// ---------------------------------------------------------------------------------------------
+// The documented sign-side state machine, written as a spec (oracle for C13).
+
+#[derive(Clone, Debug)]
+pub struct SpecSign {
+    pub addr: u16,
+    pub style: PageFlipStyle,
+    pub state: State,
+    pub pages: Vec<(u32, u32, Vec<u8>)>,
+    pub pending: Vec<u8>,
+    pub accepted: u64,
+    pub w: u32,
+    pub h: u32,
+    pub ty: Option<SignType>,
+}
+
+fn total_bytes(w: u32, h: u32) -> usize {
+    let data = 4 + w as usize * ((h as usize + 7) / 8);
+    (data + 15) / 16 * 16
+}
+
+impl SpecSign {
+    pub fn new(addr: u16, style: PageFlipStyle) -> Self {
+        SpecSign {
+            addr,
+            style,
+            state: State::Unconfigured,
+            pages: vec![],
+            pending: vec![],
+            accepted: 0,
+            w: 0,
+            h: 0,
+            ty: None,
+        }
+    }
+    fn blank(&mut self) {
+        self.state = State::Unconfigured;
+        self.pages.clear();
+        self.pending.clear();
+        self.accepted = 0;
+        self.w = 0;
+        self.h = 0;
+        self.ty = None;
+    }
+    /// A buffered page is stored only if it is a complete page of the configured size.
+    fn close_page(&mut self) {
+        if !self.pending.is_empty() {
+            let d = std::mem::take(&mut self.pending);
+            if self.w > 0 && self.h > 0 && d.len() == total_bytes(self.w, self.h) {
+                self.pages.push((self.w, self.h, d));
+            }
+        }
+    }
+    fn legal(&self, op: Operation) -> bool {
+        use State::*;
+        match op {
+            Operation::ReceiveConfig => matches!(self.state, Unconfigured | ConfigFailed),
+            Operation::ReceivePixels => matches!(
+                self.state,
+                ConfigReceived | PixelsFailed | PageLoaded | PageLoadInProgress | PageShown | PageShowInProgress | ShowingPages
+            ),
+            Operation::ShowLoadedPage => self.state == PageLoaded,
+            Operation::LoadNextPage => self.state == PageShown,
+            Operation::StartReset => true,
+            Operation::FinishReset => self.state == ReadyToReset,
+            _ => false,
+        }
+    }
+    pub fn step(&mut self, m: &Message<'_>) -> Option<Message<'static>> {
+        use State::*;
+        match m {
+            Message::Hello(Address(a)) | Message::QueryState(Address(a)) if *a == self.addr => {
+                let s = self.state;
+                if s == PageLoadInProgress {
+                    self.state = PageLoaded;
+                }
+                if s == PageShowInProgress {
+                    self.state = PageShown;
+                }
+                Some(Message::ReportState(Address(self.addr), s))
+            }
+            Message::RequestOperation(Address(a), op) if *a == self.addr => {
+                if !self.legal(*op) {
+                    return None;
+                }
+                match op {
+                    Operation::ReceiveConfig => self.state = ConfigInProgress,
+                    Operation::ReceivePixels => {
+                        self.state = PixelsInProgress;
+                        self.pages.clear();
+                    }
+                    Operation::ShowLoadedPage => self.state = PageShowInProgress,
+                    Operation::LoadNextPage => self.state = PageLoadInProgress,
+                    Operation::StartReset => {
+                        self.state = ReadyToReset;
+                        self.pending.clear();
+                        self.accepted = 0;
+                    }
+                    Operation::FinishReset => self.blank(),
+                    _ => {}
+                }
+                Some(Message::AckOperation(Address(self.addr), *op))
+            }
+            Message::SendData(Offset(off), data) => {
+                let d = data.get();
+                if self.state == ConfigInProgress {
+                    if *off == 0 && d.len() == 16 {
+                        let dims = match d[0] {
+                            4 => Some((d[5] as u32 + d[6] as u32 + d[7] as u32 + d[8] as u32, d[4] as u32)),
+                            8 => Some((d[7] as u32, d[5] as u32)),
+                            _ => None,
+                        };
+                        if let Some((w, h)) = dims {
+                            self.w = w;
+                            self.h = h;
+                            self.ty = TYPES.iter().cloned().find(|t| t.to_bytes()[0] == d[0] && t.to_bytes()[1] == d[1]);
+                            self.accepted += 1;
+                        }
+                    }
+                } else if self.state == PixelsInProgress {
+                    if *off == 0 {
+                        self.close_page();
+                    }
+                    self.pending.extend_from_slice(d);
+                    self.accepted += 1;
+                }
+                None
+            }
+            Message::DataChunksSent(ChunkCount(n)) => {
+                let ok = self.accepted == *n as u64;
+                match self.state {
+                    ConfigInProgress => self.state = if ok { ConfigReceived } else { ConfigFailed },
+                    PixelsInProgress => self.state = if ok { PixelsReceived } else { PixelsFailed },
+                    _ => {}
+                }
+                self.close_page();
+                self.accepted = 0;
+                None
+            }
+            Message::PixelsComplete(Address(a)) if *a == self.addr => {
+                if self.state == PixelsReceived {
+                    self.state = match self.style {
+                        PageFlipStyle::Automatic => ShowingPages,
+                        PageFlipStyle::Manual => PageLoaded,
+                    };
+                }
+                None
+            }
+            Message::Goodbye(Address(a)) if *a == self.addr => {
+                self.blank();
+                None
+            }
+            _ => None,
+        }
+    }
+    pub fn obs(&self) -> String {
+        let t = match self.ty {
+            Some(t) => type_idx(t).to_string(),
+            None => "-".to_string(),
+        };
+        let mut h = FNV_INIT;
+        for (w, hh, b) in &self.pages {
+            h = fnv_nat(h, *w as u64);
+            h = fnv_nat(h, *hh as u64);
+            h = fnv_nat(h, b.len() as u64);
+            for x in b {
+                h = fnv_byte(h, *x);
+            }
+        }
+        format!("{}/{}/{}/{}", state_idx(self.state), t, self.pages.len(), h)
+    }
+}
+
+// ---------------------------------------------------------------------------------------------
+// message construction helpers
+
+pub fn sd(off: u16, d: &[u8]) -> Message<'static> {
+    Message::SendData(Offset(off), Data::try_new(d.to_vec()).unwrap())
+}
+
+/// A configuration block that makes a virtual sign w x h (w <= 255*4, h <= 255).
+pub fn tiny_cfg(w: u32, h: u32, horizon: bool) -> Vec<u8> {
+    let mut d = vec![0u8; 16];
+    if horizon {
+        d[0] = 8;
+        d[1] = 0xEE;
+        d[7] = w as u8;
+        d[5] = h as u8;
+    } else {
+        d[0] = 4;
+        d[1] = 0xEE;
+        d[4] = h as u8;
+        let mut rest = w;
+        for i in 5..9 {
+            let x = rest.min(255);
+            d[i] = x as u8;
+            rest -= x;
+        }
+    }
+    d
+}
+
+fn is_receiving(s: State) -> bool {
+    s == State::ConfigInProgress || s == State::PixelsInProgress
+}
+
+/// One guided random walk; returns the messages.  `bus` is the real implementation, used only to
+/// steer towards protocol-legal moves.
+struct Walker<'r> {
+    rng: &'r mut Rng,
+    addrs: Vec<u16>,
+    dims: HashMap<u16, (u32, u32)>,
+}
+
+impl<'r> Walker<'r> {
+    fn page_chunks(&mut self, w: u32, h: u32) -> Vec<Message<'static>> {
+        let mut p = Page::new(PageId(self.rng.byte()), w, h);
+        if w > 0 && h > 0 {
+            for _ in 0..self.rng.below(6) {
+                let x = self.rng.below(w as u64) as u32;
+                let y = self.rng.below(h as u64) as u32;
+                p.set_pixel(x, y, true);
+            }
+        }
+        p.as_bytes().chunks(16).enumerate().map(|(i, c)| sd((i * 16) as u16, c)).collect()
+    }
+
+    fn arbitrary(&mut self) -> Message<'static> {
+        let a = if self.rng.chance(70) { *self.rng.pick(&self.addrs) } else { self.rng.next() as u16 };
+        match self.rng.below(14) {
+            0 => Message::Hello(Address(a)),
+            1 => Message::QueryState(Address(a)),
+            2 => Message::RequestOperation(Address(a), *self.rng.pick(&OPS)),
+            3 => Message::AckOperation(Address(a), *self.rng.pick(&OPS)),
+            4 => Message::ReportState(Address(a), *self.rng.pick(&STATES)),
+            5 => Message::PixelsComplete(Address(a)),
+            6 => {
+                if self.rng.chance(30) {
+                    Message::Goodbye(Address(a))
+                } else {
+                    Message::QueryState(Address(a))
+                }
+            }
+            7 => Message::DataChunksSent(ChunkCount(self.rng.below(8) as u16)),
+            8 => {
+                // arbitrary 16-byte configuration block
+                let mut d = self.rng.bytes(16);
+                if self.rng.chance(70) {
+                    d[0] = if self.rng.chance(50) { 4 } else { 8 };
+                }
+                if self.rng.chance(30) {
+                    for i in 5..9 {
+                        d[i] = 200 + (self.rng.below(56) as u8);
+                    }
+                }
+                sd(0, &d)
+            }
+            9 => {
+                let len = match self.rng.below(5) {
+                    0 => 0,
+                    1 => 16,
+                    2 => 255,
+                    _ => self.rng.range(0, 40),
+                } as usize;
+                let off = if self.rng.chance(50) { 0 } else { (self.rng.below(8) * 16) as u16 };
+                { let b = self.rng.bytes(len); sd(off, &b) }
+            }
+            10 => {
+                let n = self.rng.below(4) as usize;
+                let ty = self.rng.range(7, 255) as u8;
+                Message::Unknown(flipdot_core::Frame::new(Address(a), flipdot_core::MsgType(ty), Data::try_new(self.rng.bytes(n)).unwrap()))
+            }
+            11 => Message::RequestOperation(Address(a), Operation::StartReset),
+            12 => Message::RequestOperation(Address(a), Operation::ReceivePixels),
+            _ => Message::RequestOperation(Address(a), Operation::ReceiveConfig),
+        }
+    }
+
+    /// Protocol-legal continuation for the sign at `a` currently in `state`; may be several messages.
+    fn legal(&mut self, a: u16, state: State, true_count: u16) -> Vec<Message<'static>> {
+        use State::*;
+        let ad = Address(a);
+        match state {
+            Unconfigured | ConfigFailed => vec![Message::RequestOperation(ad, Operation::ReceiveConfig)],
+            ConfigInProgress => {
+                let (cfg, dims) = match self.rng.below(4) {
+                    0 => {
+                        let t = *self.rng.pick(&TYPES);
+                        (t.to_bytes().to_vec(), t.dimensions())
+                    }
+                    1 => {
+                        let (w, h) = (self.rng.range(1, 12) as u32, self.rng.range(1, 8) as u32);
+                        (tiny_cfg(w, h, false), (w, h))
+                    }
+                    2 => {
+                        let (w, h) = (self.rng.range(1, 28) as u32, self.rng.range(1, 16) as u32);
+                        (tiny_cfg(w, h, true), (w, h))
+                    }
+                    _ => {
+                        let (w, h) = (self.rng.range(0, 3) as u32, self.rng.range(0, 9) as u32);
+                        (tiny_cfg(w, h, self.rng.chance(50)), (w, h))
+                    }
+                };
+                let _ = self.dims.insert(a, dims);
+                let count = match self.rng.below(10) {
+                    0 => true_count,
+                    1 => true_count.wrapping_add(2),
+                    _ => true_count.wrapping_add(1),
+                };
+                vec![sd(0, &cfg), Message::DataChunksSent(ChunkCount(count))]
+            }
+            ConfigReceived | PixelsFailed => vec![Message::RequestOperation(ad, Operation::ReceivePixels)],
+            PixelsInProgress => {
+                let (w, h) = *self.dims.get(&a).unwrap_or(&(2, 8));
+                let npages = self.rng.range(0, 3);
+                let mut v = vec![];
+                let mut n = true_count;
+                for _ in 0..npages {
+                    let mut chunks = self.page_chunks(w, h);
+                    // faults: lost / short / extra / duplicated-first chunk
+                    match self.rng.below(12) {
+                        0 if chunks.len() > 1 => {
+                            let k = self.rng.below(chunks.len() as u64) as usize;
+                            let _ = chunks.remove(k);
+                        }
+                        1 => {
+                            let k = self.rng.below(chunks.len() as u64) as usize;
+                            if let Message::SendData(o, d) = &chunks[k] {
+                                let dd = d.get().to_vec();
+                                let cut = self.rng.below(dd.len() as u64 + 1) as usize;
+                                chunks[k] = Message::SendData(*o, Data::try_new(dd[..cut].to_vec()).unwrap());
+                            }
+                        }
+                        2 => { let b = self.rng.bytes(16); chunks.push(sd((chunks.len() * 16) as u16, &b)) }
+                        3 => {
+                            let k = self.rng.below(chunks.len() as u64) as usize;
+                            let c = chunks[0].clone();
+                            chunks.insert(k, c);
+                        }
+                        _ => {}
+                    }
+                    n = n.wrapping_add(chunks.len() as u16);
+                    v.extend(chunks);
+                }
+                let count = match self.rng.below(10) {
+                    0 => n.wrapping_sub(1),
+                    1 => n.wrapping_add(1),
+                    _ => n,
+                };
+                v.push(Message::DataChunksSent(ChunkCount(count)));
+                v
+            }
+            PixelsReceived => vec![Message::PixelsComplete(ad)],
+            PageLoaded => {
+                if self.rng.chance(60) {
+                    vec![Message::RequestOperation(ad, Operation::ShowLoadedPage)]
+                } else {
+                    vec![Message::RequestOperation(ad, Operation::ReceivePixels)]
+                }
+            }
+            PageShown => {
+                if self.rng.chance(60) {
+                    vec![Message::RequestOperation(ad, Operation::LoadNextPage)]
+                } else {
+                    vec![Message::RequestOperation(ad, Operation::ReceivePixels)]
+                }
+            }
+            PageLoadInProgress | PageShowInProgress => vec![Message::QueryState(ad)],
+            ShowingPages => vec![Message::RequestOperation(ad, Operation::ReceivePixels)],
+            ReadyToReset => vec![Message::RequestOperation(ad, Operation::FinishReset)],
+            _ => vec![Message::QueryState(ad)],
+        }
+    }
+}
+
+/// Drive a bus with a guided walk, checking the per-message oracles of `prop`.
+/// Returns (case line, first oracle failure).
+fn guided_walk(prop: &str, rng: &mut Rng, signs: &[(PageFlipStyle, u16)], steps: usize, out: &mut Out) -> (String, Option<String>) {
+    let mut bus = VirtualSignBus::new(signs.iter().map(|(st, a)| VirtualSign::new(Address(*a), *st)));
+    let mut specs: Vec<SpecSign> = signs.iter().map(|(st, a)| SpecSign::new(*a, *st)).collect();
+    let mut counts: Vec<u16> = vec![0; signs.len()]; // chunks we believe each sign accepted (steering only)
+    let addrs: Vec<u16> = signs.iter().map(|s| s.1).collect();
+    let mut line = format!(
+        "vbus {}",
+        signs.iter().map(|(st, a)| format!("{},{:04X}", style_tok(*st), a)).collect::<Vec<_>>().join(";")
+    );
+    let mut failure: Option<String> = None;
+    let mut n = 0usize;
+    let mut w = Walker {
+        rng,
+        addrs: addrs.clone(),
+        dims: HashMap::new(),
+    };
+    let mut dead = false;
+    while n < steps && !dead {
+        let k = w.rng.below(signs.len() as u64) as usize;
+        let msgs: Vec<Message<'static>> = if w.rng.chance(70) {
+            let st = bus.sign(k).state();
+            w.legal(addrs[k], st, counts[k])
+        } else {
+            vec![w.arbitrary()]
+        };
+        for m in msgs {
+            n += 1;
+            line.push(' ');
+            line.push_str(&show_msg(&m));
+            let before: Vec<String> = (0..signs.len()).map(|i| show_sign(bus.sign(i))).collect();
+            let before_state: Vec<State> = (0..signs.len()).map(|i| bus.sign(i).state()).collect();
+            let solo: Vec<VirtualSign<'_>> = (0..signs.len()).map(|i| bus.sign(i).clone()).collect();
+            let r = guarded(|| bus.process_message(m.clone()));
+            let r = match r {
+                Some(Ok(r)) => r,
+                _ => {
+                    out.stat("walk.impl-panic");
+                    if failure.is_none() {
+                        failure = Some(format!("C12 virtual sign panicked on message #{} {}", n, show_msg(&m)));
+                    }
+                    dead = true;
+                    break;
+                }
+            };
+            let after: Vec<String> = (0..signs.len()).map(|i| show_sign(bus.sign(i))).collect();
+            out.stat(&format!("walk.state{}.{}", state_idx(before_state[k]), &show_msg(&m)[..2]));
+            // steering bookkeeping
+            for i in 0..signs.len() {
+                match &m {
+                    Message::SendData(..) if is_receiving(before_state[i]) => counts[i] = counts[i].wrapping_add(1),
+                    Message::DataChunksSent(_) => counts[i] = 0,
+                    _ => {}
+                }
+                if !is_receiving(bus.sign(i).state()) {
+                    counts[i] = 0;
+                }
+            }
+            // C13: spec machine. The bus offers the message to signs in order and stops at the first reply.
+            let mut spec_reply: Option<Message<'static>> = None;
+            for s in specs.iter_mut() {
+                let rr = s.step(&m);
+                if rr.is_some() {
+                    spec_reply = rr;
+                    break;
+                }
+            }
+            if prop == "C13" && failure.is_none() {
+                if show_reply(&spec_reply) != show_reply(&r) {
+                    failure = Some(format!("C13 message #{} {}: sign replied {}, the documented state machine replies {}", n, show_msg(&m), show_reply(&r), show_reply(&spec_reply)));
+                }
+                for i in 0..signs.len() {
+                    if specs[i].obs() != after[i] {
+                        failure = Some(format!("C13 after message #{} {}: sign {} is {} (state/type/pages/hash), the documented state machine says {}", n, show_msg(&m), i, after[i], specs[i].obs()));
+                        break;
+                    }
+                }
+                // stored pages are complete pages of the configured size
+                for i in 0..signs.len() {
+                    for p in bus.sign(i).pages() {
+                        if p.as_bytes().len() != total_bytes(p.width(), p.height()) {
+                            failure = Some("C13 stored page is not a complete page".into());
+                        }
+                    }
+                }
+            }
+            if prop == "C14" && failure.is_none() {
+                let target = match &m {
+                    Message::Hello(Address(a))
+                    | Message::QueryState(Address(a))
+                    | Message::RequestOperation(Address(a), _)
+                    | Message::PixelsComplete(Address(a))
+                    | Message::Goodbye(Address(a))
+                    | Message::ReportState(Address(a), _)
+                    | Message::AckOperation(Address(a), _) => Some(*a),
+                    _ => None,
+                };
+                match target {
+                    Some(a) => {
+                        for i in 0..signs.len() {
+                            if addrs[i] != a && before[i] != after[i] {
+                                failure = Some(format!("C14 message {} addressed to {:04X} changed the sign at {:04X}: {} -> {}", show_msg(&m), a, addrs[i], before[i], after[i]));
+                            }
+                        }
+                        match addrs.iter().position(|x| *x == a) {
+                            None => {
+                                if r.is_some() {
+                                    failure = Some(format!("C14 message {} for an absent address got the reply {}", show_msg(&m), show_reply(&r)));
+                                }
+                            }
+                            Some(i) => {
+                                let mut s = solo[i].clone();
+                                let alone = guarded(|| s.process_message(&m)).unwrap_or(None);
+                                if show_reply(&alone) != show_reply(&r) {
+                                    failure = Some(format!("C14 reply to {} on the bus is {}, the addressed sign alone replies {}", show_msg(&m), show_reply(&r), show_reply(&alone)));
+                                }
+                                if let Some(rr) = &r {
+                                    let ra = match rr {
+                                        Message::ReportState(Address(x), _) | Message::AckOperation(Address(x), _) => Some(*x),
+                                        _ => None,
+                                    };
+                                    if ra != Some(a) {
+                                        failure = Some(format!("C14 reply {} to {} does not carry the addressed sign's address", show_reply(&r), show_msg(&m)));
+                                    }
+                                }
+                            }
+                        }
+                    }
+                    None => {
+                        // unaddressed (data / unknown): only receiving signs may change; nobody replies
+                        for i in 0..signs.len() {
+                            if !is_receiving(before_state[i]) && before[i] != after[i] {
+                                failure = Some(format!("C14 unaddressed {} changed the sign at {:04X}, which was not receiving (state {}): {} -> {}", &show_msg(&m)[..7.min(show_msg(&m).len())], addrs[i], state_idx(before_state[i]), before[i], after[i]));
+                            }
+                        }
+                        if r.is_some() {
+                            failure = Some(format!("C14 unaddressed message got the reply {}", show_reply(&r)));
+                        }
+                    }
+                }
+            }
+        }
+    }
+    let _ = hash_pages;
+    (line, failure)
+}
+
+fn run_walks(prop: &str, rng: &mut Rng, out: &mut Out, nwalks: usize, steps: usize, max_signs: u64) {
+    for _ in 0..nwalks {
+        let ns = 1 + rng.below(max_signs) as usize;
+        let mut addrs: Vec<u16> = vec![];
+        while addrs.len() < ns {
+            let a = match rng.below(4) {
+                0 => *rng.pick(&[0u16, 1, 3, 0xFFFF, 0x8000]),
+                1 => rng.next() as u16,
+                _ => rng.range(2, 9) as u16,
+            };
+            if !addrs.contains(&a) {
+                addrs.push(a);
+            }
+        }
+        let signs: Vec<(PageFlipStyle, u16)> = addrs
+            .iter()
+            .map(|a| (if rng.chance(50) { PageFlipStyle::Manual } else { PageFlipStyle::Automatic }, *a))
+            .collect();
+        let (line, failure) = guided_walk(prop, rng, &signs, steps, out);
+        let i = out.case(line, true);
+        if out.impls[i].contains("PANIC") {
+            out.fail(i, "C12 a virtual sign / bus panicked (see case)".into());
+        } else if out.impls[i].contains("!solo") {
+            out.fail(i, "C13 VirtualSign driven directly differs from the same sign on a one-sign bus".into());
+        }
+        if let Some(f) = failure {
+            if !f.starts_with("C12") || !out.impls[i].contains("PANIC") {
+                out.fail(i, f);
+            }
+        }
+    }
+}
+
+/// Crash histories confirmed on the pinned tree (DESIGN.md §7); always run first.
+pub fn crash_corpus() -> Vec<String> {
+    let cfg90 = to_hex(SignType::Max3000Side90x7.to_bytes());
+    let chunk = "00".repeat(16);
+    let mut v = vec![];
+    // F2(a): 5 of 6 chunks then DataChunksSent(5)
+    let mut l = format!("vbus M,0003 RO,0003,0 SD,0000,{} CS,0001 RO,0003,1", cfg90);
+    for i in 0..5 {
+        l.push_str(&format!(" SD,{:04X},{}", i * 16, chunk));
+    }
+    l.push_str(" CS,0005 QS,0003");
+    v.push(l);
+    // F2(d): two offset-0 chunks in a row
+    v.push(format!("vbus M,0003 RO,0003,0 SD,0000,{} CS,0001 RO,0003,1 SD,0000,{} SD,0000,{} CS,0002 QS,0003", cfg90, chunk, chunk));
+    // F3: Max3000 block with width bytes 200,100
+    v.push(format!("vbus M,0003 RO,0003,0 SD,0000,{} CS,0001 QS,0003", to_hex(&[4, 0xEE, 0, 7, 0x10, 200, 100, 0, 0, 8, 0, 0, 0, 0, 0, 0])));
+    // F5: transfer abandoned by StartReset, then a chunk count meant for anyone
+    let mut l = format!("vbus M,0003 RO,0003,0 SD,0000,{} CS,0001 RO,0003,1", cfg90);
+    for i in 0..6 {
+        l.push_str(&format!(" SD,{:04X},{}", i * 16, chunk));
+    }
+    l.push_str(" RO,0003,4 CS,0063 QS,0003");
+    v.push(l);
+    v
+}
+
+pub fn c12(thorough: bool, rng: &mut Rng, out: &mut Out) {
+    out.rule = "crash corpus first; then guided random walks on buses of 1..3 virtual signs (70% protocol-legal continuation incl. whole pages with lost / short / extra / repeated-first chunks and wrong counts, 30% arbitrary messages incl. data of length 0..=255, arbitrary and overflowing configuration blocks, foreign addresses); thorough adds a 70000-chunk transfer; non-trivial = every walk (all reach past configuration attempts); distinct = distinct case line".into();
+    out.exhaustive_note = "sampling only; the unbounded claim is the Lean theorem vstep_no_panic".into();
+    for l in crash_corpus() {
+        let i = out.case(l, true);
+        if out.impls[i].contains("PANIC") {
+            out.fail(i, "C12 a virtual sign panicked on a recorded crash history".into());
+        }
+    }
+    let (nw, steps) = if thorough { (20_000, 120) } else { (1_500, 60) };
+    run_walks("C12", rng, out, nw, steps, 3);
+    if thorough {
+        // 70000 accepted chunks: the chunk counter must not overflow
+        let mut l = format!("vbus M,0003 RO,0003,0 SD,0000,{} CS,0001 RO,0003,1", to_hex(&tiny_cfg(2, 8, false)));
+        for _ in 0..70_000 {
+            l.push_str(" SD,0010,-");
+        }
+        l.push_str(" CS,0000 QS,0003 CS,1170 QS,0003");
+        let i = out.case(l, true);
+        if out.impls[i].contains("PANIC") {
+            out.fail(i, "C12 a virtual sign panicked after 65536 accepted chunks (16-bit chunk counter overflow)".into());
+        }
+    }
+}
+
+/// Breadth-first exploration of the real VirtualSign's (hashable) state space over a fixed alphabet.
+fn bfs(out: &mut Out, style: PageFlipStyle, max_states: usize) {
+    let a = 3u16;
+    let f = 4u16;
+    let tiny = tiny_cfg(2, 8, false); // 2x8: data 6 bytes -> one 16-byte chunk per page
+    let mut alpha: Vec<Message<'static>> = vec![
+        Message::Hello(Address(a)),
+        Message::QueryState(Address(a)),
+        Message::Hello(Address(f)),
+        Message::PixelsComplete(Address(a)),
+        Message::PixelsComplete(Address(f)),
+        Message::Goodbye(Address(a)),
+        Message::Goodbye(Address(f)),
+        Message::AckOperation(Address(a), Operation::ReceiveConfig),
+        Message::ReportState(Address(a), State::Unconfigured),
+        Message::RequestOperation(Address(f), Operation::ReceivePixels),
+        Message::DataChunksSent(ChunkCount(0)),
+        Message::DataChunksSent(ChunkCount(1)),
+        Message::DataChunksSent(ChunkCount(2)),
+        sd(0, &tiny),
+        sd(0, SignType::Max3000Side90x7.to_bytes()),
+        sd(0, &[9u8; 16]),
+        sd(16, &tiny),
+        sd(0, &[0xAA; 16]),
+        sd(16, &[0xBB; 16]),
+        sd(0, &[0xCC; 8]),
+        sd(0, &[]),
+        sd(0, &[0xDD; 17]),
+    ];
+    for o in OPS {
+        alpha.push(Message::RequestOperation(Address(a), o));
+    }
+    let init = VirtualSign::new(Address(a), style);
+    let mut seen: HashSet<VirtualSign<'static>> = HashSet::new();
+    let mut queue: VecDeque<(VirtualSign<'static>, Vec<usize>)> = VecDeque::new();
+    let _ = seen.insert(init.clone());
+    queue.push_back((init, vec![]));
+    let mut transitions = 0u64;
+    while let Some((s, path)) = queue.pop_front() {
+        // one case per state: its path followed by every alphabet symbol is too long; emit path + symbol
+        for (k, m) in alpha.iter().enumerate() {
+            let mut t = s.clone();
+            let r = guarded(|| t.process_message(m));
+            transitions += 1;
+            let mut p2 = path.clone();
+            p2.push(k);
+            let line = format!(
+                "vbus {},{:04X} {}",
+                style_tok(style),
+                a,
+                p2.iter().map(|i| show_msg(&alpha[*i])).collect::<Vec<_>>().join(" ")
+            );
+            // spec along the path
+            let mut spec = SpecSign::new(a, style);
+            let mut sr = None;
+            for i in &p2 {
+                sr = spec.step(&alpha[*i]);
+            }
+            let i = out.case(line, true);
+            match r {
+                None => out.fail(i, "C12 virtual sign panicked during breadth-first exploration".into()),
+                Some(r) => {
+                    if show_reply(&r) != show_reply(&sr) || show_sign(&t) != spec.obs() {
+                        out.fail(i, format!("C13 after the path, on {}: sign replied {} and is {}, the documented state machine replies {} and is {}", show_msg(m), show_reply(&r), show_sign(&t), show_reply(&sr), spec.obs()));
+                    }
+                    // bounds: buffered bytes and stored pages
+                    let small = t.pages().len() <= 2;
+                    if small && seen.len() < max_states && !seen.contains(&t) {
+                        // bound buffered bytes through the path length (each symbol adds <= 17 bytes)
+                        if p2.len() <= 14 {
+                            let _ = seen.insert(t.clone());
+                            queue.push_back((t, p2));
+                        }
+                    }
+                }
+            }
+        }
+    }
+    out.stat_n("bfs.states", seen.len() as u64);
+    out.stat_n("bfs.transitions", transitions);
+}
+
+pub fn c13(thorough: bool, rng: &mut Rng, out: &mut Out) {
+    out.rule = "breadth-first exploration of the real VirtualSign's hashable state from the initial state over a 28-symbol alphabet (own/foreign address, every operation, chunk counts 0/1/2, configuration blocks tiny/known/unknown/offset, data chunks of 0/8/16/17 bytes at offsets 0 and 16) for both flip styles, every transition compared with the documented sign-side state machine (replies, state, type, stored pages) and with the Lean model; then guided random walks with real sign types; non-trivial = every explored transition / walk; distinct = distinct case line (path)".into();
+    out.exhaustive_note = "the breadth-first exploration is complete up to the state cap (quick 400 states per style, thorough 6000) and path length 15; not a fixed point in general because buffered data is unbounded".into();
+    let cap = if thorough { 6000 } else { 400 };
+    bfs(out, PageFlipStyle::Manual, cap);
+    bfs(out, PageFlipStyle::Automatic, cap);
+    let (nw, steps) = if thorough { (8_000, 150) } else { (600, 60) };
+    run_walks("C13", rng, out, nw, steps, 1);
+}
+
+pub fn c14(thorough: bool, rng: &mut Rng, out: &mut Out) {
+    out.rule = "crash corpus entry F5 first; guided random walks on buses of 1..4 virtual signs with distinct addresses and mixed flip styles, messages addressed to any of them or to absent addresses, interleaved so that two signs can be mid-transfer at once; after every message every non-addressed sign's observable state/type/pages must be unchanged, the reply must be the addressed sign's own, absent addresses get silence, unaddressed data may only touch receiving signs; non-trivial = walks on buses with at least 2 signs; distinct = distinct case line".into();
+    out.exhaustive_note = "sampling only; the unbounded claim is the Lean theorems on busStep".into();
+    // F5 on a two-sign bus
+    let cfg90 = to_hex(SignType::Max3000Side90x7.to_bytes());
+    let chunk = "00".repeat(16);
+    let mut l = format!("vbus M,0003;M,0004 RO,0003,0 SD,0000,{} CS,0001 RO,0003,1", cfg90);
+    for i in 0..6 {
+        l.push_str(&format!(" SD,{:04X},{}", i * 16, chunk));
+    }
+    l.push_str(" RO,0003,4 CS,0063 QS,0003");
+    let i = out.case(l, true);
+    // after StartReset (state 12) the count must not add a page
+    let toks: Vec<&str> = out.impls[i].split(' ').collect();
+    if toks.len() >= 2 {
+        let t = toks[toks.len() - 2];
+        if !t.contains("|12/2/0/") {
+            out.fail(i, format!("C14 unaddressed DataChunksSent changed a sign that is not receiving (ReadyToReset after an abandoned transfer): {}", t));
+        }
+    }
+    let (nw, steps) = if thorough { (20_000, 150) } else { (1_500, 80) };
+    for _ in 0..nw {
+        let ns = 1 + rng.below(4) as usize;
+        let mut addrs: Vec<u16> = vec![];
+        while addrs.len() < ns {
+            let a = if rng.chance(80) { rng.range(2, 7) as u16 } else { rng.next() as u16 };
+            if !addrs.contains(&a) {
+                addrs.push(a);
+            }
+        }
+        let signs: Vec<(PageFlipStyle, u16)> = addrs
+            .iter()
+            .map(|a| (if rng.chance(50) { PageFlipStyle::Manual } else { PageFlipStyle::Automatic }, *a))
+            .collect();
+        let (line, failure) = guided_walk("C14", rng, &signs, steps, out);
+        let i = out.case(line, ns >= 2);
+        out.stat(&format!("bus.signs.{}", ns));
+        if out.impls[i].contains("PANIC") {
+            out.fail(i, "C12 a virtual sign / bus panicked (see case)".into());
+        }
+        if let Some(f) = failure {
+            out.fail(i, f);
+        }
+    }
+}
